@@ -9,8 +9,6 @@ Require Import QV.common.Util QV.C18.Model QV.C18.Spec QV.C18.Proofs_alist QV.C1
                QV.C18.Proofs_dev QV.C18.Proofs_perdev.
 Import ListNotations.
 
-Definition on_dac (d : N) (l : list mask) : list mask := filter (fun m => N.eqb (m_dac m) d) l.
-
 (* the three clean clauses of Spec.framed_inv_dac for name n at device d *)
 Definition dclean_at (st : state) (n d : N) : Prop :=
   (forall w, lookup n (d_wins (dac_of st d)) = Some w ->
@@ -31,24 +29,6 @@ Proof.
 Qed.
 
 (* devices on which the (device, mask name) pairs of measurement name nm differ between two measurement maps *)
-Definition changed_dacs (nm : N) (mm mm' : list (N * list mask)) : list N :=
-  filter (fun d => negb (same_members mask_route_eqb (on_dac d (get_set nm mm)) (on_dac d (get_set nm mm'))))
-         (map m_dac (get_set nm mm ++ get_set nm mm')).
-
-Definition ptrack_dac (dm : dims) (st : state) (o : op) (dl : list (N * N)) : list (N * N) :=
-  let (st', e) := step dm st o in
-  match o with
-  | OSetMeasurement nm _ _ =>
-      flat_map (fun n => map (fun d => (n, d)) (changed_dacs nm (mmap st) (mmap st'))) (users_meas (regs st) nm) ++ dl
-  | ORegister name _ _ _ _ => match e with None => filter (fun q => negb (N.eqb (fst q) name)) dl | Some _ => dl end
-  | ORemove name => filter (fun q => negb (N.eqb (fst q) name)) dl
-  | OClear => []
-  | _ => dl
-  end.
-
-Fixpoint prun_dac (dm : dims) (st : state) (dl : list (N * N)) (h : list op) : list (N * N) :=
-  match h with [] => dl | o :: r => prun_dac dm (fst (step dm st o)) (ptrack_dac dm st o dl) r end.
-
 (* ---- the clauses at device d only read the masks that sit on d ---------------------------------------------------- *)
 Lemma existsb_on_dac d (f : mask -> bool) l :
   (forall m, f m = true -> m_dac m = d) -> existsb f l = existsb f (on_dac d l).
